@@ -259,6 +259,9 @@ class SR:
     def __repr__(self):
         return 'SR(%s)' % self.e
 
+    def __format__(self, spec):
+        return 'SR'
+
     # -- numpy object-dtype ufunc hooks -----------------------------------
     def exp(self):
         return SR(mk_exp(self.e))
@@ -829,6 +832,32 @@ class NPProxy(types.ModuleType):
                 return np.sum(x) / x.size
             return _wrap(np.sum(x, axis=axis) / x.shape[axis])
         return np.mean(x, *a, **k)
+
+    def corrcoef(self, a, b=None, **k):
+        if _has_sym(a) or _has_sym(b):
+            a = list(np.asarray(a, dtype=object).flat)
+            b = list(np.asarray(b, dtype=object).flat)
+            n = len(a)
+            ma, mb = sum(a[1:], a[0]) / n, sum(b[1:], b[0]) / n
+            cab = sum([(x - ma) * (y - mb) for x, y in zip(a, b)][1:], (a[0] - ma) * (b[0] - mb))
+            va = sum([(x - ma) * (x - ma) for x in a][1:], (a[0] - ma) * (a[0] - ma))
+            vb = sum([(y - mb) * (y - mb) for y in b][1:], (b[0] - mb) * (b[0] - mb))
+            den = (va * vb)
+            r = cab / (den.sqrt() if _is_sym(den) else math.sqrt(den))
+            out = np.empty((2, 2), dtype=object)
+            out[0, 0] = out[1, 1] = 1.0
+            out[0, 1] = out[1, 0] = r
+            return out
+        return np.corrcoef(a, b, **k)
+
+    def nanmedian(self, x, *a, **k):
+        if _has_sym(x):
+            x = np.asarray(x, dtype=object)
+            axis = k.get('axis', a[0] if a else None)
+            if x.ndim == 2 and axis == 1 and x.shape[1] <= 2:
+                return _wrap(np.array([row[0] if len(row) == 1 else (row[0] + row[1]) / 2 for row in x], dtype=object))
+            raise Unsupported('nanmedian of more than two symbolic columns')
+        return np.nanmedian(x, *a, **k)
 
     def nanmean(self, x, *a, **k):
         if _has_sym(x):
